@@ -22,6 +22,11 @@ CLAIMED = {
          "Enumerates callback outcome x begin behaviour x second-phase reply sequences (transport failures up to the retry bound, then success/failed result) x retry setting {0,1,2,3} x cancellation point x joined scopes; checks never-both, no decision for joined scopes, decision matches the callback outcome, attempt bound, no retry after a result, and that nil is returned only for an acknowledged commit of a successful business.",
          "Fake TC on the independent wire codec; transport failure = no reply within the client's 20 s wait or a session reset; quick tier keeps at most one no-reply per sequence and two reset cases per retry setting.",
          "DESIGN.md §4 C04"),
+ "C07": ("exploration",
+         "runtime monitor: real WithGlobalTx scope trees and gRPC/gin/dubbo integrations in a client child against the fake coordinator; oracle = reference interpreter of the documented propagation semantics over the coordinator's per-xid request log plus context observations inside and after every scope",
+         "ALL scope chains up to depth 3 over six propagation modes x two outcomes, for a shared context and for a fresh context carrying the xid, plus sampled two-child trees; per logical transaction the begin and the single decision by its launcher, xid/role seen by every callback, precondition failures of Mandatory/Never, and integrity of the enclosing context after each inner scope are compared with the model. Integrations are coupled through the real metadata/http/attachment carriers with generated xid strings and every accepted key spelling.",
+         "Reference interpreter in harness/checks/c07.go encodes the documented semantics; child errors are not propagated by parents (independent outcomes).",
+         "DESIGN.md §4 C07"),
 }
 
 NOT_YET = "check not implemented yet in this revision of the framework (work in progress; see DESIGN.md §4 for the planned monitor)"
